@@ -25,3 +25,4 @@ def rules(ctx):
     S.mutator_release_rules(ctx)
     S.free_verdict_rules(ctx)
     S.replaced_range_rules(ctx)
+    S.survey_residue_rules(ctx)
